@@ -100,6 +100,7 @@ func (r *RowResolver) tryResolve(m *Merge) (err error) {
 		}
 		m.UnresolvedCols[i] = struct{}{}
 	}
+	rowChanged := false
 	for i = 0; i < uint32(r.nCols); i++ {
 		var add *string
 		var mod *string
@@ -149,8 +150,16 @@ func (r *RowResolver) tryResolve(m *Merge) (err error) {
 			}
 			m.ResolvedRow[i] = row[i]
 		}
+		if add != nil || mod != nil {
+			rowChanged = true
+		}
 	}
-	if len(layersWhereRowIsRemoved) > 0 {
+	if len(layersWhereRowIsRemoved) > 0 && !rowChanged && len(m.UnresolvedCols) == 0 {
+		// removed in some layers and not a single cell changed in the others (their
+		// rows only look different because their columns were removed or reordered)
+		m.ResolvedRow = nil
+		m.Resolved = true
+	} else if len(layersWhereRowIsRemoved) > 0 {
 		// it isn't clear whether this row should be removed or modified so not resolved
 		m.Resolved = false
 	} else {
